@@ -12,6 +12,11 @@ CHECKS = {
    text="Theorems in coq/props/C16.v (closed under the global context), for every n >= 0 and all integers: iteration yields offsets 0..n-1 in order; integer indexing equals range(n)[i] (IndexError outside -n..n-1); slicing with any positive step equals range(n)[start:stop:step] with positive overflow clamped and IndexError for a bound below -n (also stated pointwise as membership); tuple indexing; unknown count: non-negative ints work, iteration raises ValueError; ports compare by (node index, offset, direction). The model mirrors node_port.py; each run re-ties it to /repo by evaluating the same queries on real handles, including handles returned by add_node inside add/delete histories (index reuse) and by every builder call the property lists, whose expected count is the operation's num_out.",
    note="Trusted: Coq kernel/vm_compute; the correspondence samples; 'handles returned by builders know their count' is monitored on builder scenarios (not a theorem) with the count read from op.num_out; hash equality is only observed (equal ports hash equal).",
    ref="4/C16"),
+ "C19": dict(
+   technique="Coq proof (forward dictionary fold = pointwise backwards reading of the write history, by induction over entries) tied by behavioural correspondence on generated shots; multi-shot strictness and counts monitored in Coq",
+   text="Theorems in coq/props/C19.v (closed under the global context): for every shot whose values are bits, to_register_bits returns, for every register, exactly the pointwise reading of the entry history (latest indexed write to position j after the last whole-register write, else that write's bit j, else 0; length = max(whole length, 1 + highest later index)); it raises ValueError iff some entry carries a non-bit; collate_tags gives per tag all values in entry order. Multi-shot register_bitstrings/register_counts (strict_names, strict_lengths) and collated_counts are modelled and evaluated in Coq against a separately written specification (per-shot strings in shot order; reject iff register sets / lengths differ; flatten+concatenate) on every generated case: monitored, not yet theorems. Three genuine defects were repaired in /repo (fix: commits, known_findings.txt).",
+   note="Trusted: Coq kernel/vm_compute; sampling correspondence; tag alphabet = printable ASCII (Unicode \\w/\\d and '$'-before-newline are outside the model); the regex is re-implemented by hand (parse_tag) and compared with re.match on generated tags.",
+   ref="4/C19"),
 }
 NA = []
 def main():
